@@ -166,6 +166,7 @@ def dataSetName : Bytes := "DataSet".toUTF8.toList
 /-- `SDcreate(fid, name, nt, rank, dimsizes)` -/
 def sdCreate (f : File) (name : Bytes) (nt : Nat) (sizes : List Nat) : File × Out :=
   if !f.isOpen then (f, .fail) else
+  if !f.rdwr then (f, .fail) else        -- since 83e4f62: `if (!(handle->flags & NC_RDWR)) HGOTO_ERROR(DFE_DENIED, FAIL)`
   let name := match name with
     | [] => dataSetName
     | c :: _ => if c == 32 then dataSetName else name
@@ -418,6 +419,7 @@ def sdGetDimId (f : File) (i : Nat) (k : Nat) : File × Out :=
     agree); otherwise the object (and with it every slot sharing it) is renamed. -/
 def sdSetDimName (f : File) (slot : Nat) (name : Bytes) : File × Out :=
   if !f.isOpen then (f, .fail) else
+  if !f.rdwr then (f, .fail) else        -- since 83e4f62
   match f.slots[slot]?, dimOf f slot with
   | some o, some d =>
     let other := f.slots.find? fun o' => o' != o && (f.objs.getD o' default).name == name
